@@ -158,6 +158,7 @@ fn c07_cfg(rng: &mut Rng) -> Cfg {
         page_cache: false,
         fs_seed: rng.next_u64(),
         capacity: None,
+        dio_align: None,
     }
 }
 
